@@ -3,6 +3,7 @@ from ..build import Unit
 from ..engine import Contract, OBJ, ASSUME
 from ..sbe import PRIMS, ORDER, bits, is_null
 
+SERVES = {"C16"}
 TITLE = "Optional/required scalars: null, range, ordering and SBE defaults"
 
 
